@@ -70,6 +70,13 @@ Theorem C19_regular_sequences_stay_modelled : forall cf ops r m,
 Proof. exact exec_regular. Qed.
 Print Assumptions C19_regular_sequences_stay_modelled.
 
+(* ... and along such a sequence the model never answers RUnmodelled: the theorems below apply at every step *)
+Theorem C19_regular_never_unmodelled : forall cf ops r m x,
+  fold_ok cf -> forallb (op_regular cf) ops = true ->
+  fst (step cf (exec cf (init r m) ops) x) <> RUnmodelled.
+Proof. exact regular_never_unmodelled. Qed.
+Print Assumptions C19_regular_never_unmodelled.
+
 (* ------------------------------------------------------------------ the two views are inverses *)
 Theorem C19_path_oid_inverse : forall cf c o p,
   Inv c -> tame cf c = true -> get_path c o = Some p -> get_oid cf c p = Some o.
